@@ -29,6 +29,25 @@ fn t_persist(data: &[u8], ctx: &mut Ctx) -> CheckResult {
     Ok(())
 }
 
+/// MutableState handles with checkpoints and (repeated) freezes; every frozen state must have the
+/// documented hash of its generation's contents, a repeated freeze must return the same state.
+fn t_mutable_state(data: &[u8], ctx: &mut Ctx) -> CheckResult {
+    let mut u = Unstructured::new(data);
+    let ops = triecheck::mstate::decode(&mut u, 40);
+    let f = triecheck::mstate::run(&ops, true, ctx)?;
+    if f.double_freeze {
+        ctx.class("repeated-freeze");
+    }
+    if f.freeze_emptied {
+        ctx.class("freeze-of-emptied-state");
+    }
+    if f.freezes >= 2 {
+        ctx.nontrivial(&ops);
+    }
+    ctx.sample(|| format!("{} MutableState operations, {} freezes", ops.len(), f.freezes));
+    Ok(())
+}
+
 fn freeze_hash(t: MutableTrie, store: &[u8]) -> ([u8; 32], PersistentState) {
     let mut l = Loader::new(store);
     let ps = match t.freeze(&mut l, &mut EmptyCollector) {
@@ -187,7 +206,7 @@ fn t_canonical(data: &[u8], ctx: &mut Ctx) -> CheckResult {
 pub fn property() -> Property {
     Property {
         id: "C04",
-        rule: "Target canonical: a target map of 0-10 keys (prefix-related keys over a 7-byte alphabet, values around the 64-byte inline limit) is built by 2-4 different histories (random insertion orders; detours through extra keys deleted again singly or by prefix, wrong values overwritten, generations rolled back, freeze/store/thaw in between) and by from_iterator; every result must hash to an independent transcription of the documented Merkle hash over the canonical compressed radix tree. Target persist: operation histories with frequent persistence steps (freeze, store_update, load_from_location, cache, serialize/deserialize, migrate to a fresh store, unmodified thaw+refreeze); after each step the hash must equal the documented hash of the model contents, contents and point lookups must equal the model, re-serialisation must be byte-identical, a migrated state must be readable from the new store alone, an unmodified refreeze must report 0 bytes of new data and any freeze at most the cost of a full rebuild. Non-trivial = different insertion orders plus detours (canonical) / reload from store, then modification and refreeze (persist).",
+        rule: "Target canonical: a target map of 0-10 keys (prefix-related keys over a 7-byte alphabet, values around the 64-byte inline limit) is built by 2-4 different histories (random insertion orders; detours through extra keys deleted again singly or by prefix, wrong values overwritten, generations rolled back, freeze/store/thaw in between) and by from_iterator; every result must hash to an independent transcription of the documented Merkle hash over the canonical compressed radix tree. Target persist: operation histories with frequent persistence steps (freeze, store_update, load_from_location, cache, serialize/deserialize, migrate to a fresh store, unmodified thaw+refreeze); after each step the hash must equal the documented hash of the model contents, contents and point lookups must equal the model, re-serialisation must be byte-identical, a migrated state must be readable from the new store alone, an unmodified refreeze must report 0 bytes of new data and any freeze at most the cost of a full rebuild. Target mutable-state: MutableState handles with checkpoints, modifications and single or repeated freezes; every freeze must return the contents and documented hash of that generation, a repeated freeze the same again with no new data. Non-trivial = different insertion orders plus detours (canonical) / reload from store, then modification and refreeze (persist).",
         assumptions: &[
             "the documented hash is transcribed in statemodel::reference_hash (validated against the implementation on hand-made states during design)",
             "backing stores are in-memory byte vectors (the Vec<u8> store and Loader of the crate)",
@@ -198,6 +217,10 @@ pub fn property() -> Property {
                 .len(64, 1200)
                 .cases(60_000, 3_000_000)
                 .floors(&[("reloaded-from-store", 0.1), ("reload-modify-refreeze", 0.05)]),
+            Target::new("mutable-state", t_mutable_state)
+                .len(32, 600)
+                .cases(40_000, 2_000_000)
+                .floors(&[("repeated-freeze", 0.1), ("freeze-of-emptied-state", 0.03)]),
         ],
     }
 }
